@@ -44,6 +44,44 @@ def gen_case(rng, tier, idx):
                     hist.insert(rng.randrange(len(hist) + 1), {"op": "with", "o": "o0", "inline": st})
             return {"prog": prog, "hist": hist, "seed": rng.randint(1, 1 << 30), "max_points": 1024, "wide": True, "witness": wit}
         return None
+    if idx % 5 in (2, 3):
+        # other program families: object trees, class hierarchies with toggled blocks, dist, soft, dynamic constraints
+        fam = rng.choice(["tree", "hier", "dist", "soft", "dyn", "list"]) if idx % 5 == 2 else "list"
+        for _ in range(20):
+            try:
+                if fam == "tree":
+                    prog, g = gen.tree_program(rng, max_bits=10, with_collections=rng.random() < 0.4, deep=rng.random() < 0.4)
+                    hist = gen.tree_history(g, prog, nops=rng.randint(6, 12))
+                elif fam == "hier":
+                    prog, g = gen.hierarchy_program(rng, max_bits=9)
+                    gen.plant(prog, g)
+                    hist = gen.hierarchy_history(g, prog, nops=rng.randint(8, 14))
+                    prog = {k: v for k, v in prog.items() if not k.startswith("_")}
+                elif fam == "dist":
+                    prog, g = gen.dist_program(rng, pure=False)
+                    hist = gen.dist_history(g, prog, ncalls=rng.randint(2, 5))
+                elif fam == "soft":
+                    prog, g = gen.soft_program(rng, max_bits=9)
+                    if prog is None:
+                        continue
+                    hist = gen.soft_history(g, prog, ncalls=rng.randint(3, 5))
+                elif fam == "dyn":
+                    prog, g = gen.dyn_program(rng, max_bits=9)
+                    # single instance only: the multi-instance dynamic-reference defect (F10) belongs to C06
+                    hist = [op for op in gen.dyn_history(g, prog, nops=rng.randint(6, 10)) if op["op"] != "new" and op.get("o", "o0") == "o0"]
+                    prog = {k: v for k, v in prog.items() if not k.startswith("_")}
+                else:
+                    prog, g = gen.list_program(rng)
+                    hist = gen.list_history(g, prog, ncalls=rng.randint(3, 5))
+                    prog = {k: v for k, v in prog.items() if not k.startswith("_")}
+                gen.validate(prog)
+            except Exception:
+                continue
+            calls = [h for h in hist if h["op"] in ("randomize", "with", "free")]
+            if calls and rng.random() < 0.4:
+                rng.choice(calls)["solve_fail_debug"] = 1
+            return {"prog": prog, "hist": hist, "seed": rng.randint(1, 1 << 30), "max_points": 1 << (11 if tier == "quick" else 14), "family": fam}
+        return None
     max_bits = 10 if tier == "quick" else rng.choice([8, 10, 12, 14])
     for _ in range(20):
         prog, g = gen.scalar_program(rng, max_bits=max_bits)
